@@ -174,6 +174,23 @@ struct c10_elem {
 	{0x04, 0, 1, 0, 0, 0, 0, 0, 3}, \
 }
 
+/* signature data of an aggregation authentication record: same structure */
+#define C10_SCHEMA_KSI_AggrAuthRecPKISignedData { \
+	{0x01, 1, 1, 0, 0, 0, 0, 0, 0}, \
+	{0x02, 1, 1, 0, 0, 0, 0, 0, 1}, \
+	{0x03, 1, 1, 0, 0, 0, 0, 0, 2}, \
+	{0x04, 0, 1, 0, 0, 0, 0, 0, 3}, \
+}
+
+/* 0x0804 aggregation authentication record: aggregation time, chain index (one or more), input hash,
+ * signature data */
+#define C10_SCHEMA_KSI_AggregationAuthRec { \
+	{0x02, 1, 1,        0, 0, 0, 0, 0, 0}, \
+	{0x03, 1, C10_MANY, 0, 0, 0, 0, 0, 1}, \
+	{0x05, 1, 1,        0, 0, 0, 0, 0, 2}, \
+	{0x0b, 1, 1,        0, 0, 0, 0, 0, 3}, \
+}
+
 /* 0x0806 RFC 3161 record: aggregation time, chain index (one or more), input hash, and the six
  * TSTInfo / signed-attributes fields, all mandatory */
 #define C10_SCHEMA_KSI_RFC3161 { \
